@@ -335,9 +335,22 @@ func (m *Machine) elemAddr(obj *Object, off, n, esz int, et types.Type, idx *Ter
 	return Ptr{obj: obj, idx: off + i*esz}
 }
 
+// widenIndex extends an index of a narrow integer type to 64 bits according to its
+// signedness (a byte index into a 256-element table; an int8 index that may be negative), so that
+// the bounds comparison is done in a width that can represent the length.
+func (m *Machine) widenIndex(t types.Type, idx *Term) *Term {
+	if idx.w >= 64 {
+		return idx
+	}
+	if b, ok := t.Underlying().(*types.Basic); ok && b.Info()&types.IsUnsigned != 0 {
+		return m.tb.Zext(idx, 64)
+	}
+	return m.tb.Sext(idx, 64)
+}
+
 func (m *Machine) indexAddr(f *Frame, in *ssa.IndexAddr) value {
 	x := m.get(f, in.X)
-	idx := m.get(f, in.Index).(*Term)
+	idx := m.widenIndex(in.Index.Type(), m.get(f, in.Index).(*Term))
 	switch xt := in.X.Type().Underlying().(type) {
 	case *types.Slice:
 		s := x.(Slice)
@@ -389,7 +402,7 @@ func (m *Machine) strIndex(s Str, idx *Term) value {
 
 func (m *Machine) index(f *Frame, in *ssa.Index) value {
 	x := m.get(f, in.X)
-	idx := m.get(f, in.Index).(*Term)
+	idx := m.widenIndex(in.Index.Type(), m.get(f, in.Index).(*Term))
 	switch xt := in.X.Type().Underlying().(type) {
 	case *types.Basic: // string
 		return m.strIndex(x.(Str), idx)
@@ -431,7 +444,7 @@ func (m *Machine) sliceOp(f *Frame, in *ssa.Slice) value {
 		if v == nil {
 			return def
 		}
-		return m.concInt(m.get(f, v).(*Term), true, "slice bound")
+		return m.concInt(m.widenIndex(v.Type(), m.get(f, v).(*Term)), true, "slice bound")
 	}
 	switch xt := in.X.Type().Underlying().(type) {
 	case *types.Basic: // string
